@@ -379,6 +379,47 @@ example : zdtDiffZoned (.named ⟨0, [(93600, 3600)]⟩) 0 93600000000000 .day =
     zdtAdd (.named ⟨0, [(93600, 3600)]⟩) 0 ⟨0, 0, 0, 1, 2, 0, 0, 0, 0, 0⟩ .constrain = .ok 93600000000000 := by
   decide +kernel
 
+/-- **C14 (rounding a calendar unit or a day relative to a zoned date-time — NudgeToCalendarUnit with a zone).** The
+two ends of the bracket are the receiver moved by the truncated and by the next duration on the wall clock, each
+resolved in the zone with the compatible rule (so a day is as long as the zone makes it); the bracket is not empty;
+the rounded position is the exact rational one of C08 (`nudgeRounded`, theorem C08_calendar_nudge_exact) computed on
+those instants; and the result is one of the two ends. -/
+theorem C14_zoned_calendar_nudge (tz : TZ) (sign destNs : Int) (dt : IsoDateTime) (date : Dur) (o : Resolved)
+    (r : NudgeRecord) (h : nudgeCalendarUnitZ (some tz) sign destNs dt date o = .ok r) :
+    ∃ r1 r2 startD endD st en s e,
+      nudgeBracket sign dt date o = .ok (r1, r2, startD, endD) ∧
+      addDateToDt dt startD = .ok st ∧ addDateToDt dt endD = .ok en ∧
+      tz.epochNsFor st .compatible = .ok s ∧ tz.epochNsFor en .compatible = .ok e ∧ e ≠ s ∧
+      let rounded := nudgeRounded r1 (o.increment * signMul sign) ((destNs - s) * intSign (e - s)) (e - s).natAbs
+        o.increment o.mode
+      (rounded = r2 → r.date = endD ∧ r.nudgeEpochNs = e ∧ r.expanded = true) ∧
+      (rounded ≠ r2 → r.date = startD ∧ r.nudgeEpochNs = s ∧ r.expanded = false) ∧ r.norm = 0 := by
+  unfold nudgeCalendarUnitZ at h
+  obtain ⟨⟨r1, r2, startD, endD⟩, hb, h⟩ := Out.bind_eq_ok h
+  simp only at h
+  obtain ⟨sD, h1, h⟩ := Out.bind_eq_ok h
+  obtain ⟨eD, h2, h⟩ := Out.bind_eq_ok h
+  rw [durNew_eq_ok h1, durNew_eq_ok h2] at h
+  obtain ⟨st, h3, h⟩ := Out.bind_eq_ok h
+  obtain ⟨en, h4, h⟩ := Out.bind_eq_ok h
+  obtain ⟨s, h5, h⟩ := Out.bind_eq_ok h
+  obtain ⟨e, h6, h⟩ := Out.bind_eq_ok h
+  have h5' : tz.epochNsFor st .compatible = .ok s := h5
+  have h6' : tz.epochNsFor en .compatible = .ok e := h6
+  refine ⟨r1, r2, startD, endD, st, en, s, e, hb, h3, h4, h5', h6', ?_⟩
+  by_cases hes : e = s
+  · rw [if_pos hes] at h; cases h
+  · rw [if_neg hes] at h
+    refine ⟨hes, ?_⟩
+    simp only
+    split at h
+    · rename_i hr
+      cases h
+      exact ⟨fun _ => ⟨rfl, rfl, rfl⟩, fun hn => absurd hr hn, rfl⟩
+    · rename_i hr
+      cases h
+      exact ⟨fun hh => absurd hh hr, fun _ => ⟨rfl, rfl, rfl⟩, rfl⟩
+
 /-- **C14 (compare relative to a zoned date-time).** Two different durations, at least one with a date unit, are
 ordered as the instants `add` maps the reference to (wall-clock for the date parts, exact for the time parts). -/
 theorem C14_compare_zoned_orders_destinations (a b : Dur) (tz : TZ) (ns x y : Int) (hne : a ≠ b)
@@ -413,3 +454,4 @@ end TemporalModel
 #print axioms TemporalModel.C14_compare_zoned_orders_destinations
 #print axioms TemporalModel.C14_until_rounded_reaches_other
 #print axioms TemporalModel.C14_add_until_inverse
+#print axioms TemporalModel.C14_zoned_calendar_nudge
